@@ -178,7 +178,7 @@ def api_text(case):
         dlang.set_global_language_to('en')
 
 
-MODEL_FORMATS = ('auto', 'auto_extended', 'conll', 'ptb', 'deriv', 'ja', 'prolog', 'json')
+MODEL_FORMATS = ('auto', 'auto_extended', 'conll', 'ptb', 'deriv', 'ja', 'prolog', 'json', 'html')
 
 
 def model_line(case):
@@ -541,3 +541,35 @@ def read_params_suite(ctx, count, want_dict=False):
                     break
         ctx.nontrivial_add(('read_params', k))
     ctx.extra['read_params_pairs'] = n_pairs
+
+
+def numfmt_suite(ctx, count):
+    """the three spellings of a score the program prints — `'{:.8f}'` (ID lines), `'{:.5e}'` (html), `repr`
+    (json) — of the real CPython against `Cli.fmt8`, `Cli.fmt5e`, `Print.jsonFloat`, for scores `k/64` over
+    many magnitudes, including the exact ties of the six-significant-digit rounding (half to even)"""
+    from wire import enc_str
+    rng = ctx.rng
+    cases = []
+    ks = [0, 1, -1, 63, 64, -96, 640016, 640048, 63999968, -6399999, 64 * 1234565, 64 * 1234575, 64 * 999999 + 32]
+    while len(ks) < count:
+        mag = rng.choice([10, 10**3, 10**5, 10**7, 10**9, 10**12, 10**15])
+        k = rng.randint(-mag, mag)
+        if rng.random() < 0.3:
+            # near a tie of the 6-digit rounding: d.ddddd5 at some decimal position, where that is a multiple of 1/64
+            k = rng.choice([-1, 1]) * (rng.randint(100000, 999999) * 10 + 5) * 64 * 10 ** rng.randint(0, 3) // rng.choice([1, 10, 100])
+        ks.append(k)
+    for k in ks:
+        if abs(k) >= 2 ** 53 or abs(k) / 64 >= 1e16:
+            continue
+        x = k / 64
+        assert x * 64 == k
+        ctx.evaluations += 1
+        ctx.nontrivial_add(('numfmt', k))
+        if abs(k) * 15625 < 10 ** 15:
+            # at most 15 significant digits: `repr` (the shortest text that reads back) is the exact expansion
+            got = 'ok ' + ' '.join(enc_str(s) for s in ('{:.8f}'.format(x), '{:.5e}'.format(x), repr(x)))
+            cases.append(('numfmt', f'numfmt {k}', got, {'k': k, 'x': repr(x)}))
+        else:
+            got = 'ok ' + ' '.join(enc_str(s) for s in ('{:.8f}'.format(x), '{:.5e}'.format(x)))
+            cases.append(('numfmt', f'numfmt_fe {k}', got, {'k': k, 'x': repr(x)}))
+    return cases
